@@ -171,12 +171,62 @@ def handleTermR (fields : List String) : String :=
     | _, _ => "BADREQ termr"
   | _ => "BADREQ fields"
 
+/-! ### C02 / C07: `KW`, `MATCH`, `SPLIT` (text fields are bare hex) -/
+
+def kwOf (kind hexText : String) : Option Keyword :=
+  match stringOfHex hexText.toList with
+  | none => none
+  | some s =>
+    match kind with
+    | "exact" => some { text := s, ty := .exact }
+    | "wild" => some { text := s, ty := .wildcard }
+    | "regex" => some { text := s, ty := .regex }
+    | _ => none
+
+def handleKw (fields : List String) : String :=
+  match fields with
+  | kind :: hexText :: _ =>
+    match kwOf kind hexText with
+    | some k => if k.ty == .regex then "SKIP regex keyword" else "RE " ++ hexOfString (Kw.renderRegex k)
+    | none => "BADREQ kw"
+  | _ => "BADREQ fields"
+
+def handleMatch (fields : List String) : String :=
+  match fields with
+  | kind :: hexText :: hexLine :: _ =>
+    match kwOf kind hexText, stringOfHex hexLine.toList with
+    | some k, some line =>
+      if k.ty == .regex then "SKIP regex keyword"
+      else if !Kw.modelled k line.toList then "SKIP non-ASCII case folding"
+      else
+        match Kw.captures k line.toList with
+        | none => "NOMATCH"
+        | some caps =>
+          String.intercalate " " (["MATCH", toString caps.length] ++ caps.map (fun c => "S" ++ hexOfStr c))
+    | _, _ => "BADREQ match"
+  | _ => "BADREQ fields"
+
+def handleSplit (fields : List String) : String :=
+  match fields with
+  | hexSep :: hexText :: _ =>
+    match stringOfHex hexSep.toList, stringOfHex hexText.toList with
+    | some sep, some text =>
+      match Split.split text.toList sep.toList with
+      | none => "HANG"
+      | some ts => String.intercalate " " (["TOKS", toString ts.length] ++ ts.map (fun t => "S" ++ hexOfStr t))
+    | _, _ => "BADREQ split"
+  | _ => "BADREQ fields"
+
 def handle (line : String) : String :=
   match line.splitOn "\t" with
+  | "KW" :: rest => handleKw rest
+  | "MATCH" :: rest => handleMatch rest
+  | "SPLIT" :: rest => handleSplit rest
   | "RUN" :: rest => handleRun rest
   | "TABLE" :: rest => handleTable rest
   | "TERM" :: rest => handleTerm rest
   | "TERMR" :: rest => handleTermR rest
+  | "SCHED" :: rest => Ag.Sched.handleSched rest
   | "PARSE" :: hexquery :: _ =>
     (match stringOfHex hexquery.toList with
      | some s => Ag.Lang.answer (Ag.Lang.parseQuery s)
